@@ -141,12 +141,17 @@ func (ex *Exec) classifyCrash(res *PathResult) {
 	}
 }
 
-func (ex *Exec) classifyRace(rr RaceReport) {
+func (ex *Exec) classifyRace(rr RaceReport, w *Witness) {
 	for _, f := range findingsFor(ex.harness, "race", "") {
 		if (strings.Contains(rr.A, f.A) && strings.Contains(rr.B, f.B)) || (strings.Contains(rr.A, f.B) && strings.Contains(rr.B, f.A)) {
 			ex.knownSeen = append(ex.knownSeen, f.ID)
 			return
 		}
 	}
-	ex.violations = append(ex.violations, &Violation{Kind: "race", Harness: ex.harness, Site: rr.A + " <-> " + rr.B, Detail: "unsynchronised conflicting accesses"})
+	var wc *Witness
+	if w != nil {
+		c := *w
+		wc = &c
+	}
+	ex.violations = append(ex.violations, &Violation{Kind: "race", Harness: ex.harness, Site: rr.A + " <-> " + rr.B, Detail: "unsynchronised conflicting accesses (happens-before)", Witness: wc})
 }
